@@ -350,8 +350,10 @@ def replay_writer(hist, fin):
             viol.append(("C20|readback|value|%s|decoder.io" % o["op"], "wrote %s at %s (block %s) read back %r (%s)" % (o, rw["t0"], rw["rem0"], v, err)))
         elif d.tell() != rw["t1"] or (rw["rem1"] is not None and d.left() != max(0, rw["rem1"])):
             viol.append(("C20|readback|position|%s|decoder.io" % o["op"], "wrote %s: writer ends at %s/%s, reader at %s/%s" % (o, rw["t1"], rw["rem1"], d.tell(), d.left())))
-    # P1 (sequence): a program without seeks and without a half-written primitive is re-read in one pass
-    if all(s["o"]["op"] != "seek" for s in hist) and all(x["err"] != "ValueError" for x in real):
+    # P1 (sequence): a program whose written values are all intact (always so without seeks) and which has no
+    # half-written primitive is re-read in one pass, the reader mirroring blocks and seeks
+    all_intact = all(fin["intact"][i] for i, s in enumerate(hist) if s["o"]["op"] in VALUE_OPS and s["err"] == "none")
+    if all_intact and all(x["err"] != "ValueError" for x in real):
         r = bio.BitstreamReader(io.BytesIO(data))
         d = DecReader(data)
         for s, rw in zip(hist, real):
@@ -531,6 +533,34 @@ def cfg_text(name, **subst):
 JVM_ENV = {"JAVA_TOOL_OPTIONS": "-XX:ParallelGCThreads=2 -XX:CICompilerCount=2"}
 
 
+def _cached_run(mod, cfg, kw):
+    """tlc.run, or (development aid, opt-in via VERIF_DEV_TLC_CACHE=<dir>) a pickled earlier result: TLC's
+    output depends only on the spec, so mutation runs against a scratch worktree can reuse it."""
+    cache = os.environ.get("VERIF_DEV_TLC_CACHE")
+    if not cache:
+        return tlc.run(mod, cfg, workers=1, env=JVM_ENV, **kw)
+    import hashlib
+    import pickle
+    import shutil
+
+    h = hashlib.sha1()
+    for fn in sorted(glob.glob(os.path.join(tlc.SPEC, "BitIO*.tla")) + glob.glob(os.path.join(tlc.SPEC, "SerDes*.tla"))):
+        h.update(open(fn, "rb").read())
+    text = cfg if "\n" in cfg else open(os.path.join(tlc.SPEC, cfg)).read()
+    h.update((mod + text + repr(sorted(kw.items()))).encode())
+    base = os.path.join(cache, h.hexdigest())
+    if os.path.exists(base + ".pkl"):
+        res = pickle.load(open(base + ".pkl", "rb"))
+        return res
+    res = tlc.run(mod, cfg, workers=1, env=JVM_ENV, **kw)
+    os.makedirs(cache, exist_ok=True)
+    if res.dump_path:
+        shutil.copy(res.dump_path, base + ".dump")
+        res.dump_path = base + ".dump"
+    pickle.dump(res, open(base + ".pkl", "wb"))
+    return res
+
+
 def tlc_parallel(jobs):
     """Run several single-worker TLC jobs concurrently (threads); jobs = [(module, cfg, kwargs)]."""
     import threading
@@ -540,7 +570,7 @@ def tlc_parallel(jobs):
     def one(i):
         mod, cfg, kw = jobs[i]
         try:
-            out[i] = tlc.run(mod, cfg, workers=1, env=JVM_ENV, **kw)
+            out[i] = _cached_run(mod, cfg, kw)
         except BaseException as e:  # noqa
             out[i] = e
 
@@ -701,10 +731,315 @@ def _tup(x):
     return x
 
 
-# ------------------------------------------------------------------------------ T direction (filled in below)
+# ------------------------------------------------------------------------------ T direction
+def val_rec(v):
+    """int / list of bits -> the uniform record [neg, mb, s] of BitIOTrace.tla"""
+    if isinstance(v, bool):
+        v = int(v)
+    if isinstance(v, int):
+        return {"neg": v < 0, "mb": [int(c) for c in bin(abs(v))[2:]] if v else [], "s": []}
+    return {"neg": False, "mb": [], "s": list(v)}
+
+
+NOVAL = {"neg": False, "mb": [], "s": []}
+
+
+def rd_rec(v, err, tell, rem, on, ret=0, na=False, clamp=False):
+    return {
+        "na": na,
+        "exc": err,
+        "v": val_rec(v) if (err == "none" and v is not None) else NOVAL,
+        "p1": pos_of(tell),
+        "on1": bool(on),
+        "rem1": rem if (on and rem is not None) else 0,
+        "ret": ret if isinstance(ret, int) and not isinstance(ret, bool) else 0,
+        "clamp": clamp,
+    }
+
+
+NA = {"na": True, "exc": "none", "v": NOVAL, "p1": 0, "on1": False, "rem1": 0, "ret": 0, "clamp": True}
+
+
+def big_value(rnd):
+    k = rnd.choice([0, 1, 2, 3, 7, 8, 15, 16, 30, 31, 32, 33, 45, 63, 64, 65, 90])
+    c = rnd.random()
+    if c < 0.25:
+        return (1 << k) - 1
+    if c < 0.4:
+        return 1 << k
+    if c < 0.5:
+        return max(0, (1 << k) - 2)
+    return rnd.getrandbits(k) if k else 0
+
+
+def gen_wop(rnd, inblock):
+    m = M()
+    c = rnd.random()
+    if c < 0.08:
+        return {"op": "bit", "n": 0, "v": rnd.randrange(2)}
+    if c < 0.26:
+        v = big_value(rnd)
+        n = max(0, v.bit_length() + rnd.choice([0, 0, 0, 1, 5, -1]))
+        if rnd.random() < 0.05:
+            v = -v - 1
+        return {"op": "nbits", "n": n, "v": v}
+    if c < 0.34:
+        v = big_value(rnd)
+        n = max(0, (v.bit_length() + 7) // 8 + rnd.choice([0, 0, 1, -1]))
+        return {"op": "uintlit", "n": n, "v": v}
+    if c < 0.52:
+        v = big_value(rnd)
+        return {"op": "uint", "n": 0, "v": -v - 1 if rnd.random() < 0.06 else v}
+    if c < 0.68:
+        v = big_value(rnd)
+        return {"op": "sint", "n": 0, "v": -v if rnd.random() < 0.5 else v}
+    if c < 0.76:
+        k = rnd.randrange(0, 30)
+        bits = [rnd.randrange(2) if rnd.random() < 0.7 else 1 for _ in range(k)]
+        return {"op": "bitarray", "n": max(0, k + rnd.choice([0, 0, 3, -1])), "s": bits}
+    if c < 0.82:
+        k = rnd.randrange(0, 5)
+        return {"op": "bytes", "n": max(0, k + rnd.choice([0, 0, 1, -1])), "s": [rnd.choice([0, 255, rnd.randrange(256)]) for _ in range(k)]}
+    if c < 0.92:
+        if inblock:
+            return {"op": "bend", "n": 0}
+        return {"op": "bbegin", "n": rnd.choice([-3, -1, 0, 0, 1, 2, 5, 8, 13, 40, 100, 200, rnd.randrange(0, 64)])}
+    if c < 0.96:
+        return {"op": "bend", "n": 0}
+    return {"op": "flush", "n": 0}
+
+
+def spec_o(o):
+    """driver op -> the op record of the spec / do_write (v as int, s as tuple)"""
+    return {"op": o["op"], "n": o["n"], "v": o.get("v", 0), "s": tuple(o.get("s", ()))}
+
+
+def record_writer_trace(arg):
+    tid, seed, nops = arg
+    m = M()
+    bio = m["bio"]
+    rnd = random.Random(seed)
+    f = io.BytesIO()
+    w = bio.BitstreamWriter(f)
+    steps = []
+    for _ in range(nops):
+        o = gen_wop(rnd, w.bits_remaining is not None)
+        t0, rem0 = w.tell(), w.bits_remaining
+        ret, err = attempt(do_write, w, spec_o(o))
+        t1, rem1 = w.tell(), w.bits_remaining
+        lenfn, lenexc = 0, "none"
+        if o["op"] in ("uint", "sint"):
+            fn = m["eg"].exp_golomb_length if o["op"] == "uint" else m["eg"].signed_exp_golomb_length
+            lenfn, lenexc = attempt(fn, o["v"])
+            lenfn = lenfn or 0
+        steps.append(dict(o=o, t0=t0, t1=t1, rem0=rem0, rem1=rem1, err=err, ret=ret, lenfn=lenfn, lenexc=lenexc))
+        if err == "ValueError":
+            break
+    w.flush()
+    data = f.getvalue()
+    bits = bits_of_bytes(data)
+    r = bio.BitstreamReader(io.BytesIO(data))
+    d = DecReader(data)
+    ev = [{"tid": tid, "ev": "wbegin"}]
+    rsync = True
+    for st in steps:
+        o = st["o"]
+        so = spec_o(o)
+        bs = dict(NA, clamp=False)
+        dec = NA
+        if st["err"] == "none" and o["op"] != "flush" and rsync:
+            v, err = attempt(do_read_bs, r, so)
+            bs = rd_rec(v if o["op"] in VALUE_OPS else None, err, r.tell(), r.bits_remaining, r.bits_remaining is not None, ret=v if o["op"] == "bend" else 0)
+            if err != "none":
+                rsync = False
+            if not d.dead:
+                v, err = attempt(d.do, so)
+                if not d.dead:
+                    dec = rd_rec(v if o["op"] in VALUE_OPS else None, err, d.tell(), d.left(), d.inblock, clamp=True)
+        val = o.get("v", 0)
+        ev.append(
+            {
+                "tid": tid,
+                "ev": "w",
+                "o": {"op": o["op"], "n": o["n"], "neg": val < 0, "mb": val_rec(val)["mb"], "s": list(o.get("s", []))},
+                "exc": st["err"],
+                "p0": pos_of(st["t0"]),
+                "p1": pos_of(st["t1"]),
+                "on0": st["rem0"] is not None,
+                "rem0": st["rem0"] or 0,
+                "on1": st["rem1"] is not None,
+                "rem1": st["rem1"] or 0,
+                "ret": st["ret"] if isinstance(st["ret"], int) and not isinstance(st["ret"], bool) else 0,
+                "lenfn": st["lenfn"],
+                "lenexc": st["lenexc"],
+                "bits": bits[pos_of(st["t0"]) : pos_of(st["t1"])],
+                "bs": bs,
+                "dec": dec,
+            }
+        )
+    return ev
+
+
+def gen_file(rnd):
+    n = rnd.choice([0, 1, 2, 3, 5, 8, 13, 24, 48])
+    style = rnd.random()
+    out = bytearray()
+    for _ in range(n):
+        if style < 0.3:
+            out.append(rnd.randrange(256))
+        elif style < 0.55:
+            out.append(rnd.choice([0x00, 0x01, 0x04, 0x10, 0x11, 0x44, 0x55, 0x15]))  # long exp-Golomb codes
+        elif style < 0.75:
+            out.append(rnd.choice([0xFF, 0xFE, 0x7F, 0xAA, 0xFF]))
+        else:
+            out.append(rnd.choice([0x00, 0xFF, rnd.randrange(256)]))
+    return bytes(out)
+
+
+def gen_rop(rnd, r, nbytes):
+    inblock = r.bits_remaining is not None
+    c = rnd.random()
+    if c < 0.14:
+        return {"op": "bit", "n": 0, "b": 0}
+    if c < 0.26:
+        return {"op": "nbits", "n": rnd.choice([0, 1, 2, 7, 8, 9, 17, 33, 40]), "b": 0}
+    if c < 0.31:
+        return {"op": "uintlit", "n": rnd.choice([0, 1, 2, 4]), "b": 0}
+    if c < 0.47:
+        return {"op": "uint", "n": 0, "b": 0}
+    if c < 0.6:
+        return {"op": "sint", "n": 0, "b": 0}
+    if c < 0.65:
+        return {"op": "bitarray", "n": rnd.choice([0, 1, 5, 12, 20]), "b": 0}
+    if c < 0.69:
+        return {"op": "bytes", "n": rnd.choice([0, 1, 3]), "b": 0}
+    if c < 0.8:
+        if inblock:
+            return {"op": rnd.choice(["bend", "bendflush", "bendflush"]), "n": 0, "b": 0}
+        return {"op": "bbegin", "n": rnd.choice([-2, 0, 0, 1, 2, 3, 7, 8, 9, 16, 30, 60, rnd.randrange(0, 40)]), "b": 0}
+    if c < 0.84:
+        return {"op": rnd.choice(["bend", "bendflush"]), "n": 0, "b": 0}
+    if c < 0.9:
+        byte, bit = r.tell()
+        if not inblock and (bit == 7 or byte < nbytes):
+            return {"op": "align", "n": 0, "b": 0}
+        return {"op": "bit", "n": 0, "b": 0}
+    return {"op": "seek", "n": rnd.randrange(0, nbytes + 2), "b": rnd.choice([7, 7, 0, 3, rnd.randrange(8)])}
+
+
+def record_reader_trace(arg):
+    tid, seed, nops = arg
+    m = M()
+    rnd = random.Random(seed)
+    data = gen_file(rnd)
+    r = m["bio"].BitstreamReader(io.BytesIO(data))
+    d = DecReader(data)
+    ev = [{"tid": tid, "ev": "rbegin", "file": bits_of_bytes(data)}]
+    for _ in range(nops):
+        o = gen_rop(rnd, r, len(data))
+        so = {"op": o["op"], "n": o["n"], "v": o["b"], "s": ()}
+        t0, rem0 = r.tell(), r.bits_remaining
+        v, err = attempt(do_read_bs, r, so)
+        isval = o["op"] in VALUE_OPS
+        bs = rd_rec(v if isval else None, err, r.tell(), r.bits_remaining, r.bits_remaining is not None, ret=0 if isval else (v or 0))
+        dec = NA
+        if not d.dead and not (err == "Exception" and o["op"] != "seek"):
+            dv, derr = attempt(d.do, so)
+            if not d.dead:
+                dec = rd_rec(dv if isval else None, derr, d.tell(), d.left(), d.inblock, ret=0 if isval else (dv or 0))
+        elif not d.dead:
+            # nesting error on the BitstreamReader API: decoder.io has no such call, nothing happens there
+            dec = dict(bs, rem1=max(0, bs["rem1"]))
+        ev.append({"tid": tid, "ev": "r", "o": o, "p0": pos_of(t0), "on0": rem0 is not None, "rem0": rem0 or 0, "bs": bs, "dec": dec})
+    return ev
+
+
+def trace_jobs(ctx):
+    nw = ctx.pick(60, 1200)
+    nr = ctx.pick(60, 1200)
+    jobs = []
+    for i in range(nw):
+        jobs.append(("w", i + 1, ctx.seed * 7919 + i + 1, ctx.pick(30, 40)))
+    for i in range(nr):
+        jobs.append(("r", nw + i + 1, ctx.seed * 104729 + i + 1, ctx.pick(30, 45)))
+    return jobs
+
+
+def record_job(job):
+    kind, tid, seed, nops = job
+    return record_writer_trace((tid, seed, nops)) if kind == "w" else record_reader_trace((tid, seed, nops))
+
+
 def trace_direction(ctx):
-    return {"traces": 0, "events": 0, "dis": 0, "selftest": "pending", "kinds": {}, "samples": []}
+    jobs = trace_jobs(ctx)
+    evs = common.pmap(record_job, jobs)
+    records = [e for ev in evs for e in ev]
+    bad, res = trace.validate("BitIOTrace", records, env=JVM_ENV)
+    ctx.add_tlc(res, "trace validation (BitIOTrace)")
+    by_tid = {j[1]: j for j in jobs}
+    dis = 0
+    clauses = {}
+    for b in bad:
+        clauses[b["clause"]] = clauses.get(b["clause"], 0) + 1
+        if b["alarm"]:
+            rec = records[b["line"] - 1]
+            ctx.violation(
+                "C20|trace|%s|%s" % (b["clause"], rec["o"]["op"]),
+                "recorded %s trace %d line %d: %s" % (by_tid[b["tid"]][0], b["tid"], b["line"], _short(rec)),
+                {"trace": True, "job": list(by_tid[b["tid"]]), "line": b["line"]},
+            )
+        else:
+            dis += 1
+    if any(b["clause"] == "MalformedEvent" for b in bad):
+        raise RuntimeError("recorder produced malformed events: %r" % bad[:3])
+    # vacuity: the interesting clauses must have had their antecedents exercised
+    nbig = sum(1 for r in records if r["ev"] == "w" and len(r["o"]["mb"]) > 31 and r["exc"] == "none")
+    noor = sum(1 for r in records if r["ev"] == "w" and r["exc"] == "OutOfRangeError")
+    npast = sum(1 for r in records if r["ev"] == "r" and r["o"]["op"] == "bit" and r["on0"] and r["rem0"] <= 0)
+    ndec = sum(1 for r in records if r["ev"] == "r" and not r["dec"]["na"])
+    nverr = sum(1 for r in records if r["ev"] == "w" and r["exc"] == "ValueError")
+    if min(nbig, noor, npast, ndec, nverr) == 0:
+        raise RuntimeError("vacuous trace set: big=%d oor=%d pastend=%d dec=%d valueerror=%d" % (nbig, noor, npast, ndec, nverr))
+    # binding self-test: corrupt recorded fields -> the trace spec must flag exactly those lines
+    def pick_w(ev):
+        a = [i for i, r in enumerate(ev) if r["ev"] == "w" and r["o"]["op"] in ("uint", "sint") and r["exc"] == "none" and not r["on0"]]
+        b = [i for i, r in enumerate(ev) if r["ev"] == "w" and r["o"]["op"] in VALUE_OPS and r["exc"] == "none" and not r["bs"]["na"] and i not in a[:1]]
+        return (a[0], b[0]) if a and b else None
+
+    wsrc = next(ev for j, ev in zip(jobs, evs) if j[0] == "w" and pick_w(ev))
+    wtrace = [dict(r) for r in wsrc]
+    li, lj = pick_w(wtrace)
+    wtrace[li] = dict(wtrace[li], lenfn=wtrace[li]["lenfn"] + 2)
+    wtrace[lj] = dict(wtrace[lj], bs=dict(wtrace[lj]["bs"], p1=wtrace[lj]["bs"]["p1"] + 1))
+    rtrace = [dict(r) for r in next(ev for j, ev in zip(jobs, evs) if j[0] == "r" and any(not e["dec"]["na"] and e["bs"]["exc"] == "none" and e["o"]["op"] == "uint" for e in ev[1:]))]
+    lk = next(i for i, r in enumerate(rtrace) if r["ev"] == "r" and not r["dec"]["na"] and r["bs"]["exc"] == "none" and r["o"]["op"] == "uint")
+    rtrace[lk] = dict(rtrace[lk], dec=dict(rtrace[lk]["dec"], v=val_rec(12345 + sum(rtrace[lk]["dec"]["v"]["mb"]))))
+    probe = wtrace + rtrace
+    pbad, _ = trace.validate("BitIOTrace", probe, env=JVM_ENV)
+    got = {(b["line"], b["clause"]) for b in pbad if b["alarm"]}
+    want = {(li + 1, "LengthFunction"), (lj + 1, "ReadBackBitstreamReader"), (len(wtrace) + lk + 1, "ReadersDisagree")}
+    if not want <= got:
+        raise RuntimeError("trace binding self-test failed: wanted %r, trace spec reported %r" % (sorted(want), sorted(got)))
+    return {
+        "traces": len(jobs),
+        "events": len(records),
+        "dis": dis,
+        "selftest": "corrupting lenfn / the reader's end position / decoder.io's value in recorded lines is flagged as LengthFunction / ReadBackBitstreamReader / ReadersDisagree",
+        "kinds": {"writer_traces": sum(1 for j in jobs if j[0] == "w"), "reader_traces": sum(1 for j in jobs if j[0] == "r"), "values_over_31_bits": nbig, "out_of_range_writes": noor, "reads_past_block_end": npast, "lines_with_decoder_io": ndec, "rejected_zero_writes": nverr, "non_ok_clauses": clauses},
+        "samples": [_short(records[1]), _short(next(r for r in records if r["ev"] == "r"))],
+    }
+
+
+def _short(rec):
+    r = dict(rec)
+    for k in ("bits",):
+        if k in r and len(r[k]) > 40:
+            r[k] = r[k][:40] + ["..."]
+    return r
 
 
 def replay_trace(case):
-    raise RuntimeError("trace replay not available")
+    job = tuple(case["job"])
+    ev = record_job(job)
+    bad, _ = trace.validate("BitIOTrace", ev, env=JVM_ENV)
+    return {"violations": [b for b in bad if b["alarm"]], "events": [_short(e) for e in ev[max(0, case.get("line", 1) - 3) : case.get("line", 1) + 1]]}
